@@ -529,9 +529,9 @@ class DnsRecordTxtValueSpfDirectiveBase(ParsableBase, Serializable):
         composer.compose_string(domain)
 
     @classmethod
-    def _parse_ip_network(cls, parser):
+    def _parse_ip_network(cls, parser, ip_network_class):
         parser.parse_string('separator', ':')
-        parser.parse_string_until_separator_or_end('ip_network', ' ')
+        parser.parse_string_until_separator_or_end('ip_network', ' ', item_class=ip_network_class)
 
         return parser['ip_network']
 
@@ -773,7 +773,7 @@ class DnsRecordTxtValueSpfDirectiveIp4(DnsRecordTxtValueSpfDirectiveBase):
         parser = cls._parse_qualifier_and_mechanism_name(parsable)
 
         qualifier = parser.get('qualifier', None)
-        ipv4_network = cls._parse_ip_network(parser)
+        ipv4_network = cls._parse_ip_network(parser, ipaddress.IPv4Network)
 
         return cls(
             qualifier=qualifier,
@@ -808,7 +808,7 @@ class DnsRecordTxtValueSpfDirectiveIp6(DnsRecordTxtValueSpfDirectiveBase):
         parser = cls._parse_qualifier_and_mechanism_name(parsable)
 
         qualifier = parser.get('qualifier', None)
-        ipv6_network = cls._parse_ip_network(parser)
+        ipv6_network = cls._parse_ip_network(parser, ipaddress.IPv6Network)
 
         return cls(
             qualifier=qualifier,
